@@ -176,7 +176,19 @@ func TestVerifDriver(t *testing.T) {
 		w := strings.Fields(line)
 		res := "bad-op"
 		if len(w) >= 2 && w[0] == "lb" {
-			res = v.op(w[1:])
+			// an operation of the balancer takes milliseconds (the concurrency searches a few
+			// seconds): one that is still running after 40 s is wedged (a lock that is never
+			// released) — say so and stop, instead of sitting out the test timeout
+			done := make(chan string, 1)
+			go func() { done <- v.op(w[1:]) }()
+			select {
+			case res = <-done:
+			case <-time.After(40 * time.Second):
+				fmt.Fprintln(out, "hang")
+				out.Flush()
+				outF.Close()
+				os.Exit(3)
+			}
 		} else if len(w) == 6 && w[0] == "stop" {
 			res = stopScenario(w[1:])
 		} else if len(w) >= 2 && w[0] == "pool" {
